@@ -114,6 +114,7 @@ def run(ctx) -> None:
                "SampledData/CorrData operands, differing sums of weights) are never a violation (drift at most)")
 
     base = base_scenarios()
+    nbase = len(base)
     deep = deep_scenarios()
     if not quick:
         base = base + extra_scenarios(rng, 14)
@@ -122,7 +123,7 @@ def run(ctx) -> None:
     with ThreadPoolExecutor(max_workers=3 if quick else 4) as pool:
         # A. the laws of the property on the ideal design
         jobs["laws d1"] = pool.submit(C.run_model, base, C17_OPS, 1, invariants=C.LAWS_C17, workers=6)
-        jobs["laws d2"] = pool.submit(C.run_model, deep if quick else base[:18], C17_OPS, 2, invariants=C.LAWS_C17,
+        jobs["laws d2"] = pool.submit(C.run_model, deep if quick else base[:nbase], C17_OPS, 2, invariants=C.LAWS_C17,
                                       selset="small" if quick else "full", workers=6)
         # B. histories for the replay
         jobs["emit d1"] = pool.submit(C.run_model, base, C17_OPS, 1, invariants=["TypeOK", "AcceptIffValid"], emit=True, workers=4)
@@ -135,7 +136,7 @@ def run(ctx) -> None:
         if not quick:
             jobs["emit d3"] = pool.submit(C.run_model, deep, C17_OPS, 3, invariants=["TypeOK", "AcceptIffValid"], emit=True,
                                           selset="small", workers=6)
-            jobs["emit d2 all"] = pool.submit(C.run_model, base[:18], C17_OPS, 2, invariants=["TypeOK", "AcceptIffValid"], emit=True,
+            jobs["emit d2 all"] = pool.submit(C.run_model, base[:nbase], C17_OPS, 2, invariants=["TypeOK", "AcceptIffValid"], emit=True,
                                               selset="full", workers=6)
             jobs["laws d3"] = pool.submit(C.run_model, deep[:3], C17_OPS, 3, invariants=C.LAWS_C17, selset="small", workers=6)
         results = {k: f.result() for k, f in jobs.items()}
